@@ -37,7 +37,10 @@ TINY = [["<form>", "</form>", "<table>", "</table>", "<object>", "</object>", "x
         ["<a>", "</a>", "<b>", "</b>", "<p>", "</p>", "<table>"],
         ["<svg>", "</svg>", "<desc>", "<select>", "<table>", "</table>", "<p>"],
         ["<frameset>", "</frameset>", "<body>", "</html>", "<a>", " ", "<noframes>"],
-        ["<template>", "</template>", "<table>", "<td>", "<select>", "</table>", "<form>"]]
+        ["<template>", "</template>", "<table>", "<td>", "<select>", "</table>", "<form>"],
+        ["<table>", "<math>", "<mi>", "x", "</mi>", "<svg>", "<desc>", "</desc>", "<tr>"],
+        ["<svg>", "<tr>", "<foreignObject>", "<select>", "</select>", "<caption>", "<table>", "</table>", "<td>"],
+        ["<math>", "<annotation-xml encoding=text/html>", "<table>", "</table>", "<col>", "<select>", "</select>", "<tbody>"]]
 # one lexical construct made very long (a single token / reference / value of N characters): limits of the host language
 # (int() digit limit, recursion in regexes, quadratic scans) show only here
 LEXICAL = [("&#", "9", ";"), ("&#", "0", "65;"), ("&#x", "f", ";"), ("&#x", "0", "41;"), ("&", "a", ";"), ("<", "a", ">"), ("<a ", "b", "=c>"), ("<a b=", "c", ">"),
@@ -277,7 +280,8 @@ def shards(tier):
     # bounded-exhaustive: every sequence of <= L tokens over tiny paired alphabets (choreographies of scope barriers and pointers)
     for ai in range(len(TINY)):
         for part in range(2 if ai == 0 else 1):
-            out.append({"kind": "tiny", "alphabet": ai, "len": (6 if ai == 0 else 5) if quick else 7 if ai == 0 else 6, "part": part, "of": 2 if ai == 0 else 1})
+            out.append({"kind": "tiny", "alphabet": ai, "len": ((6 if ai == 0 else 5) if quick else 7 if ai == 0 else 6) - (1 if len(TINY[ai]) > 8 and not quick else 0), "part": part, "of": 2 if ai == 0 else 1})
+    out.append({"kind": "meta-prefixes"})
     for i in range(8):
         out.append({"kind": "family", "part": i, "of": 8, "quick": quick})
     out.append({"kind": "lexical", "quick": quick})
@@ -344,6 +348,24 @@ def run_shard(desc, seed, tier):
             case = _mk(inp, cfg)
             acc.add(case, check_case(case), sample={"input": short(inp, 120), "cfg": str(cfg)})
         drive(strat, fn, desc["n"], seed)
+    elif kind == "meta-prefixes":
+        # byte input that ends (or whose 1024-byte prescan window ends) anywhere inside a <meta ...> tag
+        from vf.props.c06 import META_FORMS
+        n = 0
+        for fi, form in enumerate(META_FORMS):
+            m = ((form % "utf-8") if "%s" in form else form).encode("ascii", "replace")
+            for pad in (b"", b"<!--" + b"x" * (1016 - len(m) // 2) + b"-->"):
+                doc = pad + m + b"<p>\xe9"
+                cuts = range(len(pad), len(doc) + 1) if not pad else [len(doc)]
+                for cut in cuts:
+                    for shift in ((0,) if not pad else range(0, len(m) + 8, 3)):
+                        data = (b" " * shift + doc)[:cut + shift]
+                        n += 1
+                        (builder, ns, ft) = CONFIGS[n % len(CONFIGS)]
+                        case = {"data": data, "builder": builder, "namespace": ns, "full_tree": ft, "container": None if n % 4 else "div", "scripting": False}
+                        v = check_case(case, budget=20)
+                        v.classes = tuple(v.classes) + ("meta-prefix",)
+                        acc.add(case, v)
     elif kind == "lexical":
         quick = desc["quick"]
         k = 0
@@ -357,6 +379,12 @@ def run_shard(desc, seed, tier):
                     v = check_case(case, budget=120)
                     v.classes = tuple(v.classes) + ("lexical-length",)
                     acc.add(case, v)
+        for n_, text in enumerate(soup.foreign_namesake_docs()):
+            (builder, ns, ft) = CONFIGS[n_ % len(CONFIGS)]
+            case = {"text": ("<!DOCTYPE html>" if n_ % 2 else "") + text, "builder": builder, "namespace": ns, "full_tree": ft, "container": None if n_ % 5 else "div", "scripting": bool(n_ % 3 == 0)}
+            v = check_case(case, budget=20)
+            v.classes = tuple(v.classes) + ("foreign-namesake",)
+            acc.add(case, v)
         # many DISTINCT tag names in one parse (per-phase handler caches fill up and evict), in every prefix context
         tails = ["", "<p>t<table><tr><td>c</table>", "<td>y</table>", "<input><option>", "<frame>", "</p></div></table>"]
         for pi, pre in enumerate(PREFIX):
